@@ -842,6 +842,93 @@ def check_hspace_on_impl(case, r):
     return bad, {'numdofs': r['numdofs'], 'levels': r['numlevels']}
 
 
+def multilinear_dets(corners, d, m=5):
+    """Jacobian determinants of the multilinear map with the given corner points (array of shape
+    d*(2,) + (d,), axis order .., y, x as in pyiga; coordinates x, y, z) on an m^d sample of [0,1]^d"""
+    C = np.array([[float(x) for x in pt] for pt in corners]).reshape(d * (2,) + (d,))
+    ts = np.linspace(0.0, 1.0, m)
+    dets = []
+    for u in np.ndindex(*(d * (m,))):
+        t = [ts[i] for i in u]
+        J = np.zeros((d, d))
+        for a in range(d):                      # derivative with respect to parameter axis a
+            v = np.zeros(d)
+            for idx in np.ndindex(*(d * (2,))):
+                w = 1.0
+                for b in range(d):
+                    if b == a:
+                        w *= 1.0 if idx[b] == 1 else -1.0
+                    else:
+                        w *= t[b] if idx[b] == 1 else 1.0 - t[b]
+                v += w * C[idx]
+            J[:, d - 1 - a] = v                 # columns in x, y, z parameter order (axis order is .., y, x)
+        dets.append(np.linalg.det(J))
+    return np.array(dets)
+
+
+def gen_bspline_geo(rng, kind, dom):
+    """a B-spline geometry {'kind': 'bspline', kvs, coeffs} on the parameter box `dom` (axis order as the
+    space) whose Jacobian determinant varies but keeps one sign.  Control points are dyadic."""
+    d = len(dom)
+
+    def kv_of(p, nspan, a, b):
+        return [a] * (p + 1) + [a + (b - a) * Fraction(i, nspan) for i in range(1, nspan)] + [b] * (p + 1)
+
+    if kind in ('bilinear+', 'bilinear-', 'trilinear'):
+        gk = [kv_of(1, 1, a, b) for a, b in dom]
+        for tries in range(5000):
+            assert tries < 4999, 'generator: no admissible multilinear geometry'
+            pts = []
+            for idx in np.ndindex(*(d * (2,))):
+                corner = [Fraction(i) for i in idx[::-1]]            # x, y, z of the unit-cube corner
+                if d == 2:
+                    # a trapezoid-like quadrilateral: base 2 x 1, the far edge shortened and shifted
+                    base = [2 * corner[0], corner[1]]
+                    if idx[0] == 1:
+                        base[0] = base[0] * Fraction(rng.randint(2, 6), 8) + Fraction(rng.randint(0, 4), 8)
+                else:
+                    taper = 1 - Fraction(rng.choice([2, 3, 4, 5]), 8) * corner[2]     # frustum towards z = 1
+                    base = [corner[0] * taper, corner[1] * taper, corner[2]]
+                pts.append([x + Fraction(rng.randint(-1, 1), 8) for x in base])
+            if kind == 'bilinear-':
+                pts = [pt[::-1] for pt in pts]                      # mirrored: det J < 0 throughout
+            dets = multilinear_dets(pts, d)
+            one_sign = np.all(dets > 0) or np.all(dets < 0)
+            if one_sign and np.abs(dets).min() >= 0.05 * np.abs(dets).max() and np.abs(dets).max() >= 1.3 * np.abs(dets).min():
+                if kind == 'bilinear-' and not np.all(dets < 0):
+                    continue
+                if kind != 'bilinear-' and not np.all(dets > 0):
+                    continue
+                break
+        coeffs = [x for pt in pts for x in pt]
+    else:
+        p = int(kind[1])
+        nspan = 1 if 'single' in kind else rng.choice([2, 4] if p < 3 else [2])
+        gk = [kv_of(p, nspan, a, b) for a, b in dom]
+        grev = [greville_exact(kv, p) for kv in gk]
+        # the control net of a scaled identity map (Greville points), every point moved by less than 1/8
+        # of the smallest net spacing per coordinate: the Jacobian stays diagonally dominant (det > 0)
+        # but varies from point to point
+        scale = [Fraction(rng.randint(2, 6), 2) for _ in range(d)]
+        spac = [min(b - a for a, b in zip(g[:-1], g[1:])) for g in grev]
+        coeffs = []
+        for idx in np.ndindex(*[len(g) for g in grev]):
+            par = [grev[k][idx[k]] for k in range(d)][::-1]         # x, y, z order
+            for c in range(d):
+                sp_c = spac[d - 1 - c]
+                delta = sp_c * Fraction(rng.randint(-3, 3), 32)
+                D = 1
+                while D * sp_c < 256:                               # dyadic grid, 256 points per net spacing
+                    D *= 2
+                coeffs.append(scale[c] * Fraction(round((par[c] + delta) * D), D))
+    def dy(x):
+        x = Fraction(x)
+        assert Fraction(float(x)) == x
+        return [x.numerator, x.denominator]
+    return {'kind': 'bspline', 'kvs': [kvspec(kv, (1 if kind in ('bilinear+', 'bilinear-', 'trilinear') else int(kind[1]))) for kv in gk],
+            'coeffs': [dy(x) for x in coeffs]}
+
+
 def gen_l2_cases(ctx, n):
     rng = ctx.rng
     thorough = ctx.tier == 'thorough'
@@ -879,6 +966,32 @@ def gen_l2_cases(ctx, n):
             case['data'] = {'kind': 'space', 'coeffs': [[rng.randint(-64, 64), 8] for _ in range(prod(N) * T)],
                             'route': 'callable' if dk == 'space-callable' else 'bsplinefunc'}
         case['dk'] = dk
+        cases.append(case)
+    # B-spline geometries with a NON-constant Jacobian given by their control nets (every run):
+    # one-element degree-1 maps that are multilinear but not affine (bilinear quadrilaterals of both
+    # orientations, trilinear hexahedra), single-span and multi-span nets of degree 1..2 (3 in thorough).
+    # Reproduction and residual orthogonality against the geometry-weighted oracle.
+    kinds = ['bilinear+', 'bilinear-', 'trilinear', 'p2-single', 'p1-multi', 'p2-multi', 'bilinear-', 'trilinear']
+    if thorough:
+        kinds = kinds * 3 + ['p3-single', 'p3-multi', 'p2-multi-3d', 'p1-multi-3d']
+    for gi, gkind in enumerate(kinds):
+        d = 3 if gkind in ('trilinear', 'p2-multi-3d', 'p1-multi-3d') else 2
+        maxd = 6 if d == 2 else 4
+        sp = []
+        for _ in range(d):
+            p = rng.randint(1, 3 if d == 2 else 2)
+            sp.append((gen_kv(rng, p, rng.random() < 0.6, maxd), p))
+        N = [len(kv) - p - 1 for kv, p in sp]
+        geo = gen_bspline_geo(rng, gkind, [(kv[0], kv[-1]) for kv, _ in sp])
+        dk = ['space', 'poly', 'space-callable'][gi % 3]
+        case = {'op': 'l2', 'kvs': [kvspec(kv, p) for kv, p in sp], 'trailing': [], 'geo': geo, 'bare_kv': False,
+                'gk': 'bspline:' + gkind, 'dk': dk, 'f_physical': False}
+        if dk == 'poly':
+            case['data'] = {'kind': 'poly', 'comps': gen_poly(rng, d, rng.randint(1, 4), 1), 'style': 'array'}
+            case['f_physical'] = gi % 2 == 1
+        else:
+            case['data'] = {'kind': 'space', 'coeffs': [[rng.randint(-64, 64), 8] for _ in range(prod(N))],
+                            'route': 'callable' if dk == 'space-callable' else 'bsplinefunc'}
         cases.append(case)
     # geometries that stress the solver of the geometry-weighted projection:
     # (a) small physical domains (|det J| tiny), (b) strongly varying |det J| on a larger space
@@ -954,7 +1067,7 @@ def gen_hspace_cases(ctx, n):
 # ---------------------------------------------------------------------------
 
 def run(ctx):
-    ctx.obligations_stage(PROPS, extra_targets=['C17/Examples.vo'], gate_dirs=['C02'])
+    ctx.obligations_stage(PROPS, extra_targets=['C17/Examples.vo'], gate_dirs=['C02', 'C19'])
     thorough = ctx.tier == 'thorough'
     ctx.assumptions += [
         'model: hand transcription of approx.interpolate, tensor.apply_tprod (loop as written), utils.grid_eval(_transformed), '
@@ -1114,13 +1227,16 @@ META = {
     'level_text': 'Theorems (Coq, unbounded, coq/C17/Props.v): apply_tprod_is_kronecker (tensor.py loop = sum_j prod_k B_k[i_k,j_k] X[j,t] for any number of '
                   'operators, sizes, trailing axes), tprod_compose, interp_reproduces, interp_matches_nodes (any unisolvent node grid: hypothesis S_k C_k = I '
                   'resp. C_k S_k = I, checked per case by exact inversion), data_componentwise, physical_equals_pullback, l2_residual_orthogonal, '
-                  'l2_reproduces, mass_injective (positive weights + unisolvent basis => injective Gram matrix), l2_kron_reproduces (Kronecker path). '
+                  'l2_reproduces, mass_injective (positive weights + unisolvent basis => injective Gram matrix), l2_kron_reproduces (Kronecker path), '
+                  'interp_is_projection / interp_values_projection / l2_projection_is_projection (idempotence, any exact solver), '
+                  'greville_satisfies_sw_necessary (positive diagonal at the Greville points, every degree >= 1, on C19 + C02), greville_unisolvent_p01 '
+                  '(collocation matrix at the Greville points of an open knot vector of degree 0/1 is the identity), greville_p01_solver_contract. '
                   'Tie: approx.interpolate (default Greville and custom nodes, splines/polynomials/arrays, scalar/vector/matrix data, affine geometry) '
                   'against the exact model by vm_compute (20 quick / 96 thorough cases) within the bound stated in harness/props/c17.py, Greville nodes and '
                   'singular-grid status included; every case (dims 1..3, degrees 0..6, NURBS/B-spline/twisted geometries, 1D routines, pull-back route) '
                   'against an exact Fraction oracle; project_L2 (Kronecker, CG with geometry, hierarchical HB/THB) against an independent quadrature '
                   'oracle: residual orthogonality |b - M x| <= tau(|b| + |M||x|), reproduction within tau cond(M).',
-    'level_note': 'partial: solvers (SuperLU/LAPACK/CG) enter by contract, Schoenberg-Whitney is checked per case not proved, Gauss quadrature / geometry '
+    'level_note': 'partial: solvers (SuperLU/LAPACK/CG) enter by contract, Schoenberg-Whitney for degree >= 2 is checked per case not proved, Gauss quadrature / geometry '
                   'maps / hierarchical assembly are covered by the oracle only (no Coq model of irrational Gauss nodes); LU growth factor <= 8 assumed in the float bound. '
                   'Trusted: Coq kernel + vm_compute, hand transcription in coq/C17/Model.v and coq/lib/Bsp.v (validated each run), harness oracles.',
 }
